@@ -124,6 +124,11 @@ type Filler struct {
 	Ring     *Ring
 	Budget   int // longest data field in bytes (default 300)
 	MaxElems int // longest slice of non-byte elements (default 4)
+	// MaxTopElems, if > 0, replaces MaxElems for slices that are not nested
+	// inside another slice (to cross the 0xfd varint limit of a list count
+	// without a combinatorial blow-up).
+	MaxTopElems int
+	sliceDepth  int
 	// Hook, if set, is consulted first for every exported field: return true
 	// when it filled the field itself.
 	Hook func(f *Filler, typeName, field string, v reflect.Value) bool
@@ -210,9 +215,11 @@ func (f *Filler) value(v reflect.Value, owner, field string) {
 		}
 		n := f.elems(field)
 		nv := reflect.MakeSlice(t, n, n)
+		f.sliceDepth++
 		for i := 0; i < n; i++ {
 			f.value(nv.Index(i), owner, field)
 		}
+		f.sliceDepth--
 		v.Set(nv)
 	case reflect.Array:
 		if t.Elem().Kind() == reflect.Uint8 {
@@ -255,6 +262,9 @@ func (f *Filler) value(v reflect.Value, owner, field string) {
 
 func (f *Filler) elems(field string) int {
 	max := f.MaxElems
+	if f.sliceDepth == 0 && f.MaxTopElems > 0 {
+		max = f.MaxTopElems
+	}
 	switch rapid.IntRange(0, 9).Draw(f.T, field+"#kind") {
 	case 0:
 		return 0
